@@ -6,7 +6,7 @@ import copy
 from props.common import call, viol, hx
 from sim.objects import build, snapshot, order_fingerprint
 from ref import fa
-from gen import fa as genfa, names
+from gen import fa as genfa, names, edits
 import gambatools.nfa_algorithms as na
 from gambatools.identifier_generator import IdentifierGenerator
 
@@ -33,6 +33,16 @@ def _base(rng, used, eps, qstyle_p):
     s = {'kind': 'nfa', 'Q': names.shuffled(rng, [qm[q] for q in a['Q']]), 'Sigma': syms,
          'delta': [[qm[q], (eps if x == a['eps'] else x), [qm[t] for t in T]] for q, x, T in a['delta']],
          'q0': qm[a['q0']], 'F': [qm[q] for q in a['F']], 'eps': eps, 'dd': rng.random() < 0.6}
+    if rng.random() < 0.3 and len(s['delta']) >= 1:
+        # legal but unusual: several keys of delta hold the SAME set object (e.g. built with dict.fromkeys)
+        src = rng.choice(s['delta'])
+        keys = {(q, x) for q, x, _ in s['delta']}
+        for _ in range(rng.randint(1, 2)):
+            q, x = rng.choice(s['Q']), rng.choice(list(s['Sigma']) + [eps])
+            if (q, x) not in keys:
+                keys.add((q, x))
+                s['delta'].append([q, x, list(src[2])])
+        s['alias'] = True
     return s
 
 
@@ -53,6 +63,12 @@ def gen_cases(rng, tier, rnd):
         for _ in range(rng.randint(3, 9)):
             r = rng.random()
             ids = sorted(bases)
+            if r < 0.12:
+                b = rng.choice([k for k in ids if bases[k] == frozenset([k])] or ids)
+                spec_b = next((st['spec'] for st in steps if st['op'] == 'make' and st['id'] == b), None)
+                if spec_b is not None:
+                    steps.append({'op': 'edit', 'a': b, 'edit': edits.propose(rng, spec_b)})
+                continue
             if r < 0.2 and len(steps) < 9:
                 steps.append({'op': 'make', 'id': nid, 'spec': _base(rng, used, eps, qstyle_p)})
                 bases[nid] = frozenset([nid])
@@ -104,6 +120,15 @@ def run_case(case, env):
             fps.append([step['spec']['Q'].index(q) for q in pool[step['id']].Q])
             if step['spec']['eps'] != '':
                 out['probes']['non_default_epsilon'] = 1
+            if step['spec'].get('alias'):
+                out['probes']['operand_with_shared_target_sets'] = 1
+            continue
+        if op == 'edit':
+            if step['a'] in pool:
+                edits.apply(pool[step['a']], step['edit'])
+                if fa.validate_nfa(snapshot(pool[step['a']])):
+                    return {'harness_error': 'edit produced an invalid NFA: %s' % (step['edit'],)}
+                out['probes']['inplace_edit_between_calls'] = 1
             continue
         ops = [step['a']] + ([step['b']] if 'b' in step else [])
         if any(o not in pool for o in ops):
@@ -135,7 +160,7 @@ def run_case(case, env):
         if last_op:
             out['hist']['bigram_%s_%s' % (last_op, op)] = 1
         last_op = op
-        if any(o >= 0 and 'spec' not in next(s for s in case['steps'] if s['id'] == o) for o in ops):
+        if any('spec' not in next(s for s in case['steps'] if s.get('id') == o) for o in ops):
             nontrivial = True    # an operand is itself the result of an earlier construction
         st, val, ticks = call(env, fn, *args, **kw)
         out['evals'] += 1
@@ -191,8 +216,9 @@ def _drop(case, sid):
     dead = {sid}
     steps = []
     for s in case['steps']:
-        if s['id'] in dead or s.get('a') in dead or s.get('b') in dead:
-            dead.add(s['id'])
+        if s.get('id') in dead or s.get('a') in dead or s.get('b') in dead:
+            if 'id' in s:
+                dead.add(s['id'])
             continue
         steps.append(s)
     c = copy.deepcopy(case)
@@ -202,7 +228,13 @@ def _drop(case, sid):
 
 def shrink(case):
     for s in reversed(case['steps']):
-        yield _drop(case, s['id'])
+        if 'id' in s:
+            yield _drop(case, s['id'])
+    for i, s in enumerate(case['steps']):
+        if s['op'] == 'edit':
+            c = copy.deepcopy(case)
+            del c['steps'][i]
+            yield c
     for i, s in enumerate(case['steps']):
         if s.get('gen') == 'private':
             c = copy.deepcopy(case)
@@ -217,6 +249,10 @@ def shrink(case):
             if not s['spec'].get('dd', True):
                 c = copy.deepcopy(case)
                 c['steps'][i]['spec']['dd'] = True
+                yield c
+            if s['spec'].get('alias'):
+                c = copy.deepcopy(case)
+                c['steps'][i]['spec']['alias'] = False
                 yield c
 
 
